@@ -964,6 +964,43 @@ func (c *Ctx) teardownFacts(ls *Locksets) *teardownFacts {
 			return
 		}
 		if _, isGo := in.(*ssa.Go); !isGo {
+			// a helper, called before Wait, that calls the stored cancel func whenever there is one
+			if h := cc.StaticCallee(); h != nil && !cc.IsInvoke() && c.InModuleFn(h) && h.Package() == c.Client && h.Blocks != nil && h != a.Teardown && c.onlyConnectedGuards(in) {
+				funcInstrs(h, func(x ssa.Instruction) {
+					xc := callOf(x)
+					if xc == nil || xc.IsInvoke() || xc.StaticCallee() != nil {
+						return
+					}
+					if _, isCall := x.(*ssa.Call); !isCall {
+						return
+					}
+					if fv, _ := loadedField(xc.Value); fv != a.Die {
+						return
+					}
+					only := true
+					for _, cd := range CondsAt(x.Block()) {
+						cd = unwrapNot(cd)
+						good := false
+						if bo, ok := cd.V.(*ssa.BinOp); ok && (bo.Op == token.NEQ || bo.Op == token.EQL) {
+							var other ssa.Value
+							if isNilConst(bo.Y) {
+								other = bo.X
+							} else if isNilConst(bo.X) {
+								other = bo.Y
+							}
+							if f2, _ := loadedField(other); f2 == a.Die && (bo.Op == token.NEQ) == cd.True {
+								good = true
+							}
+						}
+						if !good {
+							only = false
+						}
+					}
+					if only {
+						tf.cancels = true
+					}
+				})
+			}
 			if cc.IsInvoke() && cc.Method.Name() == "Close" {
 				if fv, _ := loadedField(cc.Value); fv == a.Sock {
 					tf.closesSock = true
@@ -1621,41 +1658,10 @@ func runC07(c *Ctx) {
 	c.membersCallTeardown("R3")
 
 	// ---- R4
-	seenE := map[*ssa.Function]*connEffects{}
 	cn := a.Connect
-	var wipe []ssa.Instruction
-	funcInstrs(cn, func(in ssa.Instruction) {
-		cs, ok := in.(ssa.CallInstruction)
-		if !ok {
-			return
-		}
-		callee := cs.Common().StaticCallee()
-		if callee == nil || !c.InModuleFn(callee) {
-			return
-		}
-		if e := c.connEffectsOf(callee, seenE); e.wipes {
-			wipe = append(wipe, in)
-		}
-	})
-	passNil := func(set []ssa.Instruction) (bool, string) {
-		bad := ""
-		reach := ReachFromEntry(cn, func(in ssa.Instruction) bool {
-			for _, s := range set {
-				if s == in {
-					return true
-				}
-			}
-			return false
-		})
-		for in := range reach {
-			if rt, ok := in.(*ssa.Return); ok && len(rt.Results) == 1 && isNilConst(retVal(rt, 0)) {
-				bad = c.InstrPos(rt)
-			}
-		}
-		return bad == "" && len(set) > 0, bad
-	}
+	wipe, badWipe := c.connectWipes()
 	c.freshQueuesRule("R4")
-	ok5, bad5 := passNil(wipe)
+	ok5, bad5 := badWipe == "" && len(wipe) > 0, badWipe
 	r.Add("R4", "tracker-wiped", c.Pos(cn.Pos()), c.FuncKey(cn), "every success path wipes the tracker (when tracking is enabled)", ok5, "success return reachable without it: "+bad5)
 	// wipe is conditional only on st != nil
 	for _, w := range wipe {
@@ -2632,4 +2638,17 @@ func paramCallers(fn *ssa.Function) []ssa.CallInstruction {
 		}
 	}
 	return out
+}
+
+// onlyConnectedGuards: the only conditions the instruction depends on are
+// "the connected flag is set" (the teardown's own early-out).
+func (c *Ctx) onlyConnectedGuards(in ssa.Instruction) bool {
+	for _, cd := range CondsAt(in.Block()) {
+		cd = unwrapNot(cd)
+		if f2, _ := loadedField(cd.V); f2 == c.A.Connected && cd.True {
+			continue
+		}
+		return false
+	}
+	return true
 }
